@@ -101,6 +101,8 @@ type Enc struct {
 	selfGhost map[string]ghostInst
 	allWrites map[string]bool
 	axiomMemo map[string]bool
+	atOrd     map[string]int
+	atOrdPat  map[string]int
 }
 
 func (w *World) tagFor(name string) int {
